@@ -127,14 +127,14 @@ func (v *view) inst(sc *Scenario) string {
 		}
 	}
 	switch {
-	case !v.runningSeen:
-		return "launching"
 	case v.reapSeen:
 		return "reaped"
 	case v.released || (v.started && sc.Beh == "crash"):
 		return "exiting"
 	case v.started:
 		return "running"
+	case !v.runningSeen:
+		return "launching"
 	default:
 		return "nochild"
 	}
